@@ -233,6 +233,20 @@ def loop(tid, nthreads, rounds, seed, perf, out, barrier=None):
     progs = [gen.generate(tl.case_seed(seed, "C16p", tid * 100 + j), PROFILE) for j in range(3)]
     if barrier is not None:
         barrier.wait()
+    # a computation in which a task is failed by a NonAsyncContext while it waits for a batch (of lower priority
+    # than the one its parent still needs, so nobody flushes it): that batch stays scheduled when the computation ends and has to be forgotten there and then, whatever other threads are doing
+    abandon_prog = {
+        "nodes": [
+            {"style": "asynq", "ret": "return", "body": [["try", [["yield", ["list", [["leaf", ["call", "ab1", 1]], ["leaf", ["item", 1, "ab-own"]]]]]], "base", [], False]]},
+            {"style": "asynq", "ret": "return", "body": [["with", ["nonasync", "abn"], [["yield", ["tuple", [["leaf", ["item", 0, "ab-a"]], ["leaf", ["item", 0, "ab-b"]], ["leaf", ["item", 0, "ab-c"]]]]]]]]},
+        ],
+        "root": 0,
+        "shared": [],
+        "kinds": 2,
+        "faults": {},
+        "flush_faults": {},
+        "defaults": {"sv0": "dflt-sv0", "sv1": "dflt-sv1", "at0": "dflt-at0"},
+    }
     for r in range(rounds):
         tl.tick()
         viol = []
@@ -283,6 +297,18 @@ def loop(tid, nthreads, rounds, seed, perf, out, barrier=None):
             if asynq.is_asyncio_mode():
                 viol.append(("asyncio-mode-left-on-after-asyncio-run", {"thread": tid}))
             digest.append(("asyncio", repr(ao), tl.digest(rt.log)))
+        # a computation that abandons a scheduled batch, then - on the SAME scheduler - an ordinary one
+        S.reset()
+        for j, prog in enumerate((abandon_prog, progs[r % 3])):
+            rt = harness.HarnessRT(prog, prio=PRIO, seed=seed)
+            rt.label = "T%d" % tid
+            install_probes(rt, tid, viol, lambda: jr.random() < 0.3)
+            try:
+                o = rt.run("call", fresh_scheduler=False)
+            except lang.HarnessFault as e:
+                o = ("fault", repr(e))
+            digest.append(("after-abandoned-batch", j, repr(o[:2]), tl.digest(rt.log)))
+        S.reset()
         # deduplicate: same function, same arguments in every thread
         st = {"dd_exec": [], "ddk_exec": [], "ddh_exec": [], "rt": None, "dd_tasks": None, "dd_split": 0}
         F["tls"].cur = st
@@ -468,7 +494,7 @@ def run_unit(unit, progress):
             if r < len(solo[tid]) and rec["digest"] != solo[tid][r]["digest"]:
                 a, b = rec["digest"], solo[tid][r]["digest"]
                 k = next((j for j in range(min(len(a), len(b))) if a[j] != b[j]), min(len(a), len(b)))
-                what = a[k][0] if k < len(a) and a[k][0] in ("handoff", "asyncio", "dd", "ddr", "ddh", "profiler") else "program %d" % k
+                what = a[k][0] if k < len(a) and a[k][0] in ("handoff", "asyncio", "dd", "ddr", "ddh", "profiler", "after-abandoned-batch") else "program %d" % k
                 viol.append(("digest-differs-from-solo-run", {"thread": tid, "round": r, "part": what, "concurrent": repr(a[k] if k < len(a) else None)[:120], "alone": repr(b[k] if k < len(b) else None)[:120]}))
             for v in viol[:2]:
                 if len(res["violations"]) < 8:
